@@ -1,5 +1,7 @@
 import DeltaModel.Proto
 import DeltaModel.Grep
+import DeltaModel.RipGrepJson
+import DeltaModel.GrepRow
 /-!
 Model driver for C16 (`drv_grep`). Mirrors the ops of /repo/src/verif_hooks/grep.rs.
 
@@ -9,6 +11,15 @@ Model driver for C16 (`drv_grep`). Mirrors the ops of /repo/src/verif_hooks/grep
   grep.json_rec <kind> <xpath> <num|-> <xtext> <n> <a> <b> ...   parse_line on a RipGrepLine
   grep.json_meta <xtype>              parse_line on another JSON value with that "type"
   grep.json_invalid                   parse_line on something else
+  grep.json_value <tok>*              parse_line on a decoded JSON value (DeltaModel/RipGrepJson.lean: the record structs
+                                      regenerated from the source decide what is accepted). Prefix notation:
+                                      N | T | F | I<dec> | R (a number that is not a non-negative integer literal) | S<xhex>
+                                      | A<n> value*n | O<n> (K<xhex> value)*n
+  grep.json_emit <otype> <tabw> <hdr> <nlines> (<xraw> <tok>* ;)*   the rows of the stream of these JSON lines (`;` ends a line)
+  grep.row_cells <navigate 0|1> <xsepsymbol> <caller> <k> <xopt>*k <otype> <tabw> <nlines> <lines as for grep.emit>
+                                      the stream's rows with the cells of every classic-style hit row (DeltaModel/GrepRow.lean):
+                                      `L<n> <paint><xtext>…` (f path, n number, p plain, w/l/c code styles) or `X`; the
+                                      `make_output_config` flags are computed from caller and options
   grep.fragment <kind> <xpath> <xdigits|-> <xcode>     which theorem fragment covers the record (A numbered / B unnumbered, short extension, no blanks / B2 unnumbered, extension up to 10, blanks / C extension-less / -), model round trip, fmtPlain
   grep.fmt_coloured <kind> <xpath> <xdigits|-> <xcode> model round trip, fmtColoured
   grep.sections <xcode> <n> <a> <b> ...
@@ -106,6 +117,117 @@ def parseLines : Nat → List String → List Line → Option (List Line)
     | _, _, _, _, _ => none
   | _, _, _ => none
 
+/-- One JSON value in prefix notation from the front of the token list. `fuel`: at most the number of tokens. -/
+def takeJVal : Nat → List String → Option (RipGrepJson.JVal × List String)
+  | 0, _ => none
+  | fuel + 1, tok :: rest =>
+    let tag := tok.toList.head?
+    let arg := String.ofList (tok.toList.drop 1)
+    match tag with
+    | some 'N' => some (.null, rest)
+    | some 'T' => some (.bool true, rest)
+    | some 'F' => some (.bool false, rest)
+    | some 'R' => some (.otherNum, rest)
+    | some 'I' => (natOfField arg).map fun n => (.nat n, rest)
+    | some 'S' => (stringOfField arg).map fun s => (.str s, rest)
+    | some 'A' =>
+      match natOfField arg with
+      | none => none
+      | some n =>
+        let rec items : Nat → List String → List RipGrepJson.JVal → Option (List RipGrepJson.JVal × List String)
+          | 0, fs, acc => some (acc.reverse, fs)
+          | k + 1, fs, acc =>
+            match takeJVal fuel fs with
+            | some (v, fs) => items k fs (v :: acc)
+            | none => none
+        (items n rest []).map fun p => (.arr p.1, p.2)
+    | some 'O' =>
+      match natOfField arg with
+      | none => none
+      | some n =>
+        let rec members : Nat → List String → List (String × RipGrepJson.JVal) →
+            Option (List (String × RipGrepJson.JVal) × List String)
+          | 0, fs, acc => some (acc.reverse, fs)
+          | k + 1, key :: fs, acc =>
+            match key.toList with
+            | 'K' :: kc =>
+              match stringOfField (String.ofList kc), takeJVal fuel fs with
+              | some kname, some (v, fs) => members k fs ((kname, v) :: acc)
+              | _, _ => none
+            | _ => none
+          | _, _, _ => none
+        (members n rest []).map fun p => (.obj p.1, p.2)
+    | _ => none
+  | _, [] => none
+
+/-- `(<xraw> <tok>* ;)*` → the lines of a stream as `RipGrepJson.lineOf` reads them. -/
+def takeJsonLines : Nat → List String → List Line → Option (List Line)
+  | 0, [], acc => some acc.reverse
+  | k + 1, raw :: fs, acc =>
+    match bytesOfField raw, takeJVal (fs.length + 1) fs with
+    | some raw, some (v, ";" :: fs) => takeJsonLines k fs (RipGrepJson.lineOf v raw :: acc)
+    | some raw, none =>
+      -- not JSON at all: `-` stands for the value
+      match fs with
+      | "-" :: ";" :: fs => takeJsonLines k fs (Line.other raw :: acc)
+      | _ => none
+    | _, _ => none
+  | _, _, _ => none
+
+def paintLetter : GrepRow.Paint → String
+  | .file => "f" | .number => "n" | .plain => "p" | .word => "w" | .line => "l" | .context => "c" | .unknown => "u"
+
+def showCells (cfg : GrepRow.Cfg) (r : Row) : String :=
+  match GrepRow.rowCells cfg r with
+  | some cells => cells.foldl (fun s c => s ++ " " ++ paintLetter c.1 ++ hexOfBytes c.2) ("L" ++ toString cells.length)
+  | none => "X"
+
+def takeStrings : Nat → List String → List String → Option (List String × List String)
+  | 0, fs, acc => some (acc.reverse, fs)
+  | k + 1, f :: fs, acc =>
+    match stringOfField f with
+    | some s => takeStrings k fs (s :: acc)
+    | none => none
+  | _, _, _ => none
+
+def stepGrepJson (fs : List String) : Option String :=
+  match fs with
+  | "grep.row_cells" :: nav :: sep :: caller :: k :: rest =>
+    match stringOfField sep, natOfField k with
+    | some sep, some k =>
+      match takeStrings k rest [] with
+      | some (opts, ot :: w :: n :: rest) =>
+        let ot : Option (Option GrepType) := if ot = "-" then some none else (gtOfWord ot).map some
+        match ot, natOfField w, natOfField n with
+        | some ot, some w, some n =>
+          match parseLines n rest [] with
+          | some lines =>
+            let out := GrepRow.outputConfig caller opts
+            let rcfg : GrepRow.Cfg := { navigate := nav = "1", sepSymbol := sep, out := out }
+            match emit { outputType := ot, tabWidth := w, headerAsHunkHeader := out.headerAsHunk } lines with
+            | .ok rows => some (rows.foldl (fun s r => s ++ " | " ++ showCells rcfg r) ("ok " ++ toString rows.length))
+            | .error e => some ("PANIC " ++ reprStr e)
+          | none => none
+        | _, _, _ => none
+      | _ => none
+    | _, _ => none
+  | "grep.json_value" :: toks =>
+    match takeJVal (toks.length + 1) toks with
+    | some (v, []) => some (showRec (RipGrepJson.parseLine v))
+    | _ => none
+  | "grep.json_emit" :: ot :: w :: hdr :: n :: rest =>
+    let ot : Option (Option GrepType) := if ot = "-" then some none else (gtOfWord ot).map some
+    match ot, natOfField w, natOfField n with
+    | some ot, some w, some n =>
+      match takeJsonLines n rest [] with
+      | some lines =>
+        match emit { outputType := ot, tabWidth := w, headerAsHunkHeader := hdr = "1" } lines with
+        | .ok rows => some (rows.foldl (fun s r => s ++ " | " ++ showRow r) ("ok " ++ toString rows.length))
+        | .error e => some ("PANIC " ++ reprStr e)
+      | none => none
+    | _, _, _ => none
+  | _ => none
+
 def stepGrep (line : String) : String :=
   match fields line with
   | ["grep.parse", l] =>
@@ -176,6 +298,6 @@ def stepGrep (line : String) : String :=
         | .error e => "PANIC " ++ reprStr e
       | none => "ERR"
     | _, _, _ => "ERR"
-  | _ => "ERR"
+  | fs => (stepGrepJson fs).getD "ERR"
 
 def main : IO Unit := serve stepGrep
